@@ -510,10 +510,42 @@ package memberlist
 //@   at call (*Memberlist).deadNode: assert disp-left [C08,C09]: r.State == StateLeft && d.Incarnation == r.Incarnation && d.Node == r.Name && d.From == r.Name
 //@   at call (*Memberlist).suspectNode: assert disp-hearsay [C09]: (r.State == StateDead || r.State == StateSuspect) && s.Incarnation == r.Incarnation && s.Node == r.Name && s.From == m.config.Name
 
+// version compatibility (C09): "a" ranges over alive entries with a usable version vector, "r" over all entries
+//@ pure rAlive(r pushNodeState) bool := r.State == StateAlive && len(r.Vsn) >= 5
+//@ pure rPCur(r pushNodeState) int := ite(len(r.Vsn) >= 6, r.Vsn[2], 0)
+//@ pure rDCur(r pushNodeState) int := ite(len(r.Vsn) >= 6, r.Vsn[5], 0)
+//@ pure F1(remote []pushNodeState, k int, maxpmin uint8, minpmax uint8, maxdmin uint8, mindmax uint8) bool :=
+//@      forall j int :: 0 <= j && j <= k && j < len(remote) && rAlive(remote[j]) ==> remote[j].Vsn[0] <= maxpmin && minpmax <= remote[j].Vsn[1] && remote[j].Vsn[3] <= maxdmin && mindmax <= remote[j].Vsn[4]
+//@ pure F2(m *Memberlist, k int, maxpmin uint8, minpmax uint8, maxdmin uint8, mindmax uint8) bool :=
+//@      forall j int :: 0 <= j && j <= k && j < len(m.nodes) && m.nodes[j].State == StateAlive ==> m.nodes[j].PMin <= maxpmin && minpmax <= m.nodes[j].PMax && m.nodes[j].DMin <= maxdmin && mindmax <= m.nodes[j].DMax
+//@ pure F3(remote []pushNodeState, k int, maxpmin uint8, minpmax uint8, maxdmin uint8, mindmax uint8) bool :=
+//@      forall j int :: 0 <= j && j <= k && j < len(remote) ==> maxpmin <= rPCur(remote[j]) && rPCur(remote[j]) <= minpmax && maxdmin <= rDCur(remote[j]) && rDCur(remote[j]) <= mindmax
+//@ pure F4(m *Memberlist, k int, maxpmin uint8, minpmax uint8, maxdmin uint8, mindmax uint8) bool :=
+//@      forall j int :: 0 <= j && j <= k && j < len(m.nodes) ==> maxpmin <= m.nodes[j].PCur && m.nodes[j].PCur <= minpmax && maxdmin <= m.nodes[j].DCur && m.nodes[j].DCur <= mindmax
+
 //@ func (*Memberlist).verifyProtocol(m, remote)
 //@   safety [C13,C09]
 //@   modular
 //@   requires ok: mlNet(m)
+//@   assigns nothing
+//@   loop #1 invariant r1 [C09]: F1(remote, rangeindex, maxpmin, minpmax, maxdmin, mindmax)
+//@   loop #2 invariant r1 [C09]: F1(remote, len(remote), maxpmin, minpmax, maxdmin, mindmax)
+//@   loop #2 invariant l1 [C09]: F2(m, rangeindex, maxpmin, minpmax, maxdmin, mindmax)
+//@   loop #3 invariant r1 [C09]: F1(remote, len(remote), maxpmin, minpmax, maxdmin, mindmax)
+//@   loop #3 invariant l1 [C09]: F2(m, len(m.nodes), maxpmin, minpmax, maxdmin, mindmax)
+//@   loop #3 invariant r2 [C09]: F3(remote, rangeindex, maxpmin, minpmax, maxdmin, mindmax)
+//@   loop #4 invariant r1 [C09]: F1(remote, len(remote), maxpmin, minpmax, maxdmin, mindmax)
+//@   loop #4 invariant l1 [C09]: F2(m, len(m.nodes), maxpmin, minpmax, maxdmin, mindmax)
+//@   loop #4 invariant r2 [C09]: F3(remote, len(remote), maxpmin, minpmax, maxdmin, mindmax)
+//@   loop #4 invariant l2 [C09]: F4(m, rangeindex, maxpmin, minpmax, maxdmin, mindmax)
+//@   ensures compat-rr [C09]: result == nil ==> forall a int, r int :: 0 <= a && a < len(remote) && 0 <= r && r < len(remote) && rAlive(remote[a]) ==>
+//@                   remote[a].Vsn[0] <= rPCur(remote[r]) && rPCur(remote[r]) <= remote[a].Vsn[1] && remote[a].Vsn[3] <= rDCur(remote[r]) && rDCur(remote[r]) <= remote[a].Vsn[4]
+//@   ensures compat-rl [C09]: result == nil ==> forall a int, l int :: 0 <= a && a < len(remote) && 0 <= l && l < len(m.nodes) && rAlive(remote[a]) ==>
+//@                   remote[a].Vsn[0] <= m.nodes[l].PCur && m.nodes[l].PCur <= remote[a].Vsn[1] && remote[a].Vsn[3] <= m.nodes[l].DCur && m.nodes[l].DCur <= remote[a].Vsn[4]
+//@   ensures compat-lr [C09]: result == nil ==> forall l int, r int :: 0 <= l && l < len(m.nodes) && 0 <= r && r < len(remote) && m.nodes[l].State == StateAlive ==>
+//@                   m.nodes[l].PMin <= rPCur(remote[r]) && rPCur(remote[r]) <= m.nodes[l].PMax && m.nodes[l].DMin <= rDCur(remote[r]) && rDCur(remote[r]) <= m.nodes[l].DMax
+//@   ensures compat-ll [C09]: result == nil ==> forall a int, l int :: 0 <= a && a < len(m.nodes) && 0 <= l && l < len(m.nodes) && m.nodes[a].State == StateAlive ==>
+//@                   m.nodes[a].PMin <= m.nodes[l].PCur && m.nodes[l].PCur <= m.nodes[a].PMax && m.nodes[a].DMin <= m.nodes[l].DCur && m.nodes[l].DCur <= m.nodes[a].DMax
 
 //@ func (*Memberlist).pushPullNode(m, a, join)
 //@   safety [C09,C20]
